@@ -34,15 +34,19 @@ def units(tier):
           "1..3 workers idle or already leaving, call queue with 1..2 free slots: the manager thread gets through shutdown_workers "
           "(if it dies there, the queues, the wakeup pipe and the feeder thread are never released)"),
         H("C20", M, "check_shutdown_workers", t, [PE + "shutdown_workers", PE + "get_n_children_alive"], "0..3 workers each alive or not, Full raised 0..3 times"),
+        H("C20", M, "check_unused_executor_released", t, ["loky.process_executor:ProcessPoolExecutor.__init__", "loky.process_executor:_ThreadWakeup.__init__", "loky.process_executor:ProcessPoolExecutor.shutdown"],
+          "1..3 executors created and released without a task: shutdown() / with-block / plain drop"),
         H("C20", M, "check_exit_registry", t, ["loky.process_executor:ProcessPoolExecutor._start_executor_manager_thread", "loky.process_executor:_python_exit", "loky.process_executor:ProcessPoolExecutor.shutdown"],
           "1..3 executors released by shutdown(wait=False) / plain drop / shutdown(wait=True), with or without the interpreter-exit hook running first"),
         H("C20", M, "check_terminate_broken", t, [PE + "terminate_broken"], "0..3 pending, 0..3 workers"),
         H("C20", M, "check_wakeup_close_idempotent", t, ["loky.process_executor:_ThreadWakeup.close"], "1..3 closes"),
+        H("C20", "lokyverif.harness.c18_spawn", "check_popen_fork_failure", t, ["loky.backend.popen_loky_posix:Popen.__init__", "loky.backend.popen_loky_posix:Popen._launch"],
+          "fork/exec failing 0..2 times (EAGAIN / ENOMEM) before it succeeds; 0..1 extra inherited handle"),
         H("C20", "lokyverif.harness.c18_spawn", "check_launch", t, ["loky.backend.popen_loky_posix:Popen._launch"], "descriptor table after launch = {sentinel}"),
         H("C20", "lokyverif.harness.c18_spawn", "check_fork_exec", t, ["loky.backend.fork_exec:fork_exec"], "error pipe closed on both outcomes"),
         H("C20", "lokyverif.harness.c06_killtree", "check_psutil_kill", t, ["loky.backend.utils:_kill_process_tree_with_psutil"],
           "the killed worker is reaped by process.join() (never by psutil), trees of <=5 processes"),
         H("C20", "lokyverif.harness.c06_killtree", "check_posix_recursive_kill", t, ["loky.backend.utils:_kill_process_tree_without_psutil"],
-          "same through the pgrep fallback"),
+          "same through the pgrep fallback; children forked by main or helper threads (per-thread procfs view offered)"),
         H("C20", "lokyverif.harness.c12_tracker_ctl", "check_ensure_running", t, ["loky.backend.resource_tracker:ResourceTracker.ensure_running"], "<=3 restarts, no descriptor left behind"),
     ]
